@@ -475,13 +475,29 @@ def oracle(spec, d):
 def native_abort_under_concurrent_update(case, params):
     """The host process aborted ('failed to initiate panic': a Rust panic inside a natively compiled frame) in a JIT-on
     run of a program whose threads update globals concurrently — a consequence of the C15 exit / spawn windows."""
-    return case.get("kind") == "native-abort" and case.get("jit") is True
+    # a reproducible abort is a new defect; the known one is a rare race (not seen again in 3 re-runs)
+    return case.get("kind") == "native-abort" and case.get("jit") is True and case.get("reproduced") is False
 
 
-def abort_case(d, jit, units):
-    if "crash" in d and d.get("crash") == -6 and "failed to initiate panic" in (d.get("stderr") or "") and jit:
-        return {"kind": "native-abort", "jit": True, "units": units}
+def is_native_abort(d):
+    return "crash" in d and d.get("crash") == -6 and "failed to initiate panic" in (d.get("stderr") or "")
+
+
+def abort_case(d, jit, units, ck=None, delay=None):
+    if is_native_abort(d) and jit:
+        rep = reproduces(ck, units, jit, delay, is_native_abort) if ck is not None else None
+        return {"kind": "native-abort", "jit": True, "units": units, "reproduced": rep, "delay": delay}
     return None
+
+
+def reproduces(ck, units, jit, delay, symptom, n=3):
+    """Re-run a failing case n times with the same settings; True when `symptom(result)` shows up again.
+    Used to separate reproducible defects from the rare natural hits of the known C15 windows."""
+    for _ in range(n):
+        d = run_engine(ck, units, jit, delay=delay)
+        if symptom(d):
+            return True
+    return False
 
 
 F18_UNITS = [
@@ -579,7 +595,7 @@ def run(ck):
         ok = not d.get("hang") and "crash" not in d and d["res"] and "ok" in d["res"][-1] and pred(d["res"][-1]["ok"][-1])
         ck.sample({"name": name, "jit": jit, "wall_s": round(d["wall"], 1), "hang": bool(d.get("hang")),
                    "last": (d["res"][-1] if d.get("res") else None)})
-        ab = abort_case(d, jit, units)
+        ab = abort_case(d, jit, units, ck)
         if ab:
             ck.failing_input("%s (JIT on): host aborted with a panic inside native code" % name, ab, tag="abort")
             continue
@@ -600,7 +616,7 @@ def run(ck):
     stw_total = 0
     for (i, sp, jit), d in zip(jobs, res):
         ck.cov["evaluations"] += 1
-        ab = abort_case(d, jit, render_steel(sp))
+        ab = abort_case(d, jit, render_steel(sp), ck)
         if ab:
             ck.failing_input("generated program (JIT on): host aborted with a panic inside native code", ab, tag="abort")
             continue
